@@ -1371,6 +1371,54 @@ Definition bzone_node (c : cfg) (z : bzone) (n : name) : option bnode :=
   | _ => None
   end.
 
+(* ---------------------------------------------------------------- check_put_rdataset / check_delete_* hooks
+   Transaction._checked_put_rdataset / _checked_delete_rdataset / _checked_delete_name call the registered
+   check functions before the low-level operation; a check objects by raising.  Checks may make non-mutating
+   transaction calls.  They sit exactly between the front end and the store, so they are modelled as a store
+   transformer: every theorem about an arbitrary store holds with checks installed.  The check functions
+   themselves are data (the harness registers the same ones on the real transaction). *)
+Definition eHookVeto := 40.
+
+Inductive hook :=
+| HRejectType (ty : Z)          (* objects when the rdataset / deleted type is ty *)
+| HRejectTtlAbove (ttl : Z)     (* objects when the rdataset to be stored has a larger TTL *)
+| HRejectName (n : name)        (* objects when the name argument equals n (as given, no validation) *)
+| HNeedsType (ty : Z).          (* calls txn.get(name, ty): objects unless the name already has that type *)
+
+Record hooks := mkHooks { hk_put : list hook; hk_del_rds : list hook; hk_del_name : list hook }.
+
+Section Hooked.
+  Context {P S : Type}.
+  Variable st : store P S.
+
+  Definition run_hook (s : S) (n : name) (ty ttl : Z) (h : hook) : res unit :=
+    match h with
+    | HRejectType t => if ty =? t then Lib eHookVeto else Ok tt
+    | HRejectTtlAbove x => if ttl >? x then Lib eHookVeto else Ok tt
+    | HRejectName m => if name_eqb n m then Lib eHookVeto else Ok tt
+    | HNeedsType t => do r <- s_get st s n t 0; match r with Some _ => Ok tt | None => Lib eHookVeto end
+    end.
+
+  Fixpoint run_hooks (l : list hook) (s : S) (n : name) (ty ttl : Z) : res unit :=
+    match l with
+    | [] => Ok tt
+    | h :: r => do _ <- run_hook s n ty ttl h; run_hooks r s n ty ttl
+    end.
+
+  Definition hooked (hk : hooks) : store P S := {|
+    s_begin := s_begin st;
+    s_publish := s_publish st;
+    s_get := s_get st;
+    s_put := fun s n r => do _ <- run_hooks (hk_put hk) s n (r_ty r) (r_ttl r); s_put st s n r;
+    s_del_name := fun s n => do _ <- run_hooks (hk_del_name hk) s n 0 0; s_del_name st s n;
+    s_del_rds := fun s n ty cov => do _ <- run_hooks (hk_del_rds hk) s n ty 0; s_del_rds st s n ty cov;
+    s_exists := s_exists st;
+    s_node := s_node st;
+    s_changed := s_changed st;
+    s_count := s_count st
+  |}.
+End Hooked.
+
 (* ---------------------------------------------------------------- harness interface *)
 Definition obs_of_rdata (x : rdata) : obs := L [I (fst x); I (snd x)].
 Definition obs_of_rds (r : rds) : obs := L [I (r_ty r); I (r_cov r); I (r_ttl r); L (map obs_of_rdata (r_items r))].
@@ -1581,8 +1629,48 @@ Definition run_case (kind rel : Z) (origin probes hist : list obs) (idobs : bool
 (* cfg = [kind; relativize; origin] or [kind; relativize; origin; identity observed?].  Identity is not
    observed for B-tree zones whose history touches NS records: btreezone's delegation / glue bookkeeping
    re-creates the node objects below a cut to update their flags. *)
+Definition hook_of_obs (o : obs) : option hook :=
+  match o with
+  | L [I 0; I ty] => Some (HRejectType ty)
+  | L [I 1; I ttl] => Some (HRejectTtlAbove ttl)
+  | L [I 2; L n] => option_map HRejectName (name_of_obs n)
+  | L [I 3; I ty] => Some (HNeedsType ty)
+  | _ => None
+  end.
+
+Fixpoint hooklist_of_obs (l : list obs) : option (list hook) :=
+  match l with
+  | [] => Some []
+  | a :: r => match hook_of_obs a, hooklist_of_obs r with
+              | Some a, Some r => Some (a :: r) | _, _ => None end
+  end.
+
+Definition hooks_of_obs (o : obs) : option hooks :=
+  match o with
+  | L [L a; L b; L d] =>
+      match hooklist_of_obs a, hooklist_of_obs b, hooklist_of_obs d with
+      | Some a, Some b, Some d => Some (mkHooks a b d)
+      | _, _, _ => None
+      end
+  | _ => None
+  end.
+
+(* a history with check functions registered on every transaction: value-level, node-object and (B-tree zone)
+   B-tree models with the checks installed must agree; the observation is results + content *)
+Definition run_hooked (kind rel : Z) (origin probes hist : list obs) (hko : obs) : obs :=
+  match name_of_obs origin, names_of_obs probes, hist_of_obs hist, hooks_of_obs hko with
+  | Some origin, Some probes, Some h, Some hk =>
+      let c := mkCfg kind (rel =? 1) origin in
+      let ov := map (obs_of_txn c probes) (run_hist (hooked (zstore c) hk) c h []) in
+      let oh := obs_of_htxns c probes ([], []) (run_hist (hooked (hstore c) hk) c h ([], [])) in
+      let ob := if kind =? 2 then map (obs_of_btxn c probes) (run_hist (hooked (bstore c) hk) c h ([], [])) else ov in
+      if obs_eqb (L (drop_identity oh)) (L ov) && obs_eqb (L ob) (L ov) then L ov else E eModelsDisagree
+  | _, _, _, _ => E eBadCase
+  end.
+
 Definition run (o : obs) : obs :=
   match o with
+  | L [L [I kind; I rel; L origin; I _]; L probes; L hist; hk] => run_hooked kind rel origin probes hist hk
   | L [L [I kind; I rel; L origin]; L probes; L hist] => run_case kind rel origin probes hist true
   | L [L [I kind; I rel; L origin; I idobs]; L probes; L hist] => run_case kind rel origin probes hist (idobs =? 1)
   | _ => E eBadCase
